@@ -5,13 +5,23 @@ package main
 // C10 "compose" scenarios: the real PTComposer.Compose over simstore with
 // templates some of which fail to render (a failing from-XR patch, a missing
 // name-prefix label, a failing name generator); a recording client in front of
-// the store logs every write attempt and injects Invalid / other errors for
-// chosen resources. The monitor evaluates "an unrendered resource is neither
-// created nor updated while the others are, and its reference is kept"
-// directly on the write log.
+// the store logs every write attempt, what is sent with it (the created object,
+// the body of the merge patch) and what the store holds afterwards, and injects
+// Invalid / other errors for chosen resources. Existing resources hold a
+// generated (stale) spec, patches carry merge options.
+//
+// Monitors evaluated on the real run, without the model:
+//   unrendered-applied / rendered-not-applied / reference-dropped – on the write log;
+//   present-source-skipped, half-rendered-applied – every template is rendered on its own,
+//     patch by patch, with the real Apply: a patch whose source resolves must fail or write its
+//     destination, and a resource one of whose patches did not take effect must not be written;
+//   apply-depends-on-other-template – the real Compose is run again on each template alone
+//     (same XR, same existing resource): what is sent for it must be the same.
 
 import (
+	"bytes"
 	"context"
+	"encoding/json"
 	"errors"
 	"fmt"
 	"reflect"
@@ -24,8 +34,10 @@ import (
 	"k8s.io/apimachinery/pkg/runtime"
 	"k8s.io/apimachinery/pkg/runtime/schema"
 	"k8s.io/apimachinery/pkg/types"
+	kjson "k8s.io/apimachinery/pkg/util/json"
 	"sigs.k8s.io/controller-runtime/pkg/client"
 
+	"github.com/crossplane/crossplane-runtime/pkg/fieldpath"
 	"github.com/crossplane/crossplane-runtime/pkg/resource"
 	ucomposed "github.com/crossplane/crossplane-runtime/pkg/resource/unstructured/composed"
 	ucomposite "github.com/crossplane/crossplane-runtime/pkg/resource/unstructured/composite"
@@ -46,6 +58,8 @@ type c10Tpl struct {
 	NameGen       string     `json:"nameGen"` // "fail", or the name the generator hands out
 	Apply         string     `json:"apply"`   // ok | invalid | error
 	Status        any        `json:"status"`  // status of the stored resource (existing ones only)
+	CurSpec       any        `json:"curSpec"` // spec of the stored resource (existing ones only; default {"stored":"x"})
+	Cur           any        `json:"cur"`     // filled by the harness: the stored resource as the API server returns it
 }
 
 type c10ComposeScn struct {
@@ -65,17 +79,24 @@ type c10RecClient struct {
 	target func(kind, name string) string
 	fault  map[string]string // target -> "invalid" | "error"
 	writes []c10Write
-	bodies []any
+	// what was sent for composed resources (created object / merge-patch body), in write order,
+	// with the template it was sent for
+	bodies   []any
+	bodyOf   map[string]any
+	stored   []any // spec held by the store after every accepted write to a composed resource
+	storedOf map[string]any
 }
 
-func (c *c10RecClient) note(verb string, obj client.Object) (string, error) {
+func (c *c10RecClient) note(verb string, obj client.Object, body any) (string, error) {
 	kind := obj.GetObjectKind().GroupVersionKind().Kind
 	t := c.target(kind, obj.GetName())
 	c.writes = append(c.writes, c10Write{Verb: verb, Target: t})
-	if verb == "create" {
-		if u, ok := obj.(runtime.Unstructured); ok {
-			c.bodies = append(c.bodies, c10Enc(c10CopyMap(u.UnstructuredContent())))
+	if body != nil && t != "xr" {
+		c.bodies = append(c.bodies, body)
+		if c.bodyOf == nil {
+			c.bodyOf = map[string]any{}
 		}
+		c.bodyOf[t] = body
 	}
 	switch c.fault[t] {
 	case "invalid":
@@ -86,29 +107,69 @@ func (c *c10RecClient) note(verb string, obj client.Object) (string, error) {
 	return t, nil
 }
 
+// accepted records what the store holds for a composed resource after a write it accepted.
+func (c *c10RecClient) accepted(t string, obj client.Object) {
+	if t == "xr" {
+		return
+	}
+	gvk := obj.GetObjectKind().GroupVersionKind()
+	var spec any
+	if u := c.Store.Peek(gvk.GroupKind(), obj.GetNamespace(), obj.GetName()); u != nil {
+		spec = c10Enc(c10MaskNumbers(c10CopyMap(u.Object)["spec"]))
+	}
+	c.stored = append(c.stored, spec)
+	if c.storedOf == nil {
+		c.storedOf = map[string]any{}
+	}
+	c.storedOf[t] = spec
+}
+
 func (c *c10RecClient) Create(ctx context.Context, obj client.Object, opts ...client.CreateOption) error {
-	if _, err := c.note("create", obj); err != nil {
+	var body any
+	if u, ok := obj.(runtime.Unstructured); ok {
+		body = c10Enc(c10CopyMap(u.UnstructuredContent()))
+	}
+	t, err := c.note("create", obj, body)
+	if err != nil {
 		return err
 	}
-	return c.Store.Create(ctx, obj, opts...)
+	if err := c.Store.Create(ctx, obj, opts...); err != nil {
+		return err
+	}
+	c.accepted(t, obj)
+	return nil
 }
 
 func (c *c10RecClient) Update(ctx context.Context, obj client.Object, opts ...client.UpdateOption) error {
-	if _, err := c.note("update", obj); err != nil {
+	if _, err := c.note("update", obj, nil); err != nil {
 		return err
 	}
 	return c.Store.Update(ctx, obj, opts...)
 }
 
 func (c *c10RecClient) Patch(ctx context.Context, obj client.Object, p client.Patch, opts ...client.PatchOption) error {
-	if _, err := c.note("patch", obj); err != nil {
+	var body any
+	if data, err := p.Data(obj); err == nil {
+		d := json.NewDecoder(bytes.NewReader(data))
+		d.UseNumber()
+		var v any
+		if d.Decode(&v) == nil {
+			body = c10Enc(c10Dec(v))
+		}
+	}
+	t, err := c.note("patch", obj, body)
+	if err != nil {
 		return err
 	}
-	return c.Store.Patch(ctx, obj, p, opts...)
+	if err := c.Store.Patch(ctx, obj, p, opts...); err != nil {
+		return err
+	}
+	c.accepted(t, obj)
+	return nil
 }
 
 func (c *c10RecClient) Delete(ctx context.Context, obj client.Object, opts ...client.DeleteOption) error {
-	if _, err := c.note("delete", obj); err != nil {
+	if _, err := c.note("delete", obj, nil); err != nil {
 		return err
 	}
 	return c.Store.Delete(ctx, obj, opts...)
@@ -134,13 +195,13 @@ func c10ComposeErrClass(err error) string {
 
 const c10XRUID = "uid-xr"
 
-func c10RunCompose(s *c10Scn) (any, []Mon, string) {
-	cs := s.Compose
+var c10ThingGK = schema.GroupKind{Group: "example.org", Kind: "Thing"}
+
+// c10ComposeXR is the content of the composite resource handed to the store for a reconcile
+// over the templates `sel` (indices into cs.Tpls): the harness owns identity and references.
+func c10ComposeXR(cs *c10ComposeScn, sel []int) map[string]any {
 	xrC, _ := c10Dec(cs.XR).(map[string]any)
-	if xrC == nil {
-		xrC = map[string]any{}
-	}
-	// the harness owns identity and references of the XR
+	xrC = c10CopyMap(xrC)
 	xrC["apiVersion"], xrC["kind"] = "example.org/v1", "XThing"
 	md, _ := xrC["metadata"].(map[string]any)
 	if md == nil {
@@ -154,81 +215,72 @@ func c10RunCompose(s *c10Scn) (any, []Mon, string) {
 		spec = map[string]any{}
 	}
 	refs := []any{}
-	for _, t := range cs.Tpls {
+	for _, i := range sel {
 		ref := map[string]any{"apiVersion": "example.org/v1", "kind": "Thing"}
-		if t.RefName != "" {
-			ref["name"] = t.RefName
+		if cs.Tpls[i].RefName != "" {
+			ref["name"] = cs.Tpls[i].RefName
 		}
 		refs = append(refs, ref)
 	}
 	spec["resourceRefs"] = refs
 	xrC["spec"] = spec
+	return xrC
+}
 
-	allNamed := true
-	for _, t := range cs.Tpls {
-		allNamed = allNamed && t.Name != nil
+// c10SeedExisting stores the existing composed resource of template t.
+func c10SeedExisting(st *Store, t *c10Tpl) {
+	anno := map[string]any{}
+	if t.Name != nil {
+		anno["crossplane.io/composition-resource-name"] = *t.Name
 	}
-	// read the XR back from the store: this is the object Compose is handed (server-set metadata included)
+	var spec any = map[string]any{"stored": "x"}
+	if cs, ok := c10Dec(t.CurSpec).(map[string]any); ok && cs != nil {
+		spec = c10CopyMap(cs)
+	}
+	o := map[string]any{
+		"apiVersion": "example.org/v1", "kind": "Thing",
+		"metadata": map[string]any{
+			"name": t.RefName, "annotations": anno,
+			"labels":          map[string]any{"crossplane.io/composite": "my-xr"},
+			"ownerReferences": []any{map[string]any{"apiVersion": "example.org/v1", "kind": "XThing", "name": "my-xr", "uid": c10XRUID, "controller": true, "blockOwnerDeletion": true}},
+		},
+		"spec": spec,
+	}
+	if stt := c10Dec(t.Status); stt != nil {
+		o["status"] = stt
+	}
+	st.Seed(&unstructured.Unstructured{Object: o})
+}
+
+// c10ComposeOut is what one real PTComposer.Compose did.
+type c10ComposeOut struct {
+	ec     string
+	pn     string
+	cl     *c10RecClient
+	xr     *ucomposite.Unstructured
+	synced []any
+}
+
+// c10ComposeOnce runs the real PTComposer.Compose for the templates `sel` of the scenario (in
+// that order) over a fresh store holding the XR and the existing resources of those templates.
+// Write targets are reported as indices into cs.Tpls. With `faults` the scenario's injected
+// API-server answers apply.
+func c10ComposeOnce(cs *c10ComposeScn, sel []int, faults bool) (*c10ComposeOut, error) {
 	st := NewStore(runtime.NewScheme())
-	st.Seed(&unstructured.Unstructured{Object: c10CopyMap(xrC)})
+	st.Seed(&unstructured.Unstructured{Object: c10ComposeXR(cs, sel)})
 	xr := ucomposite.New()
 	if err := st.Get(context.Background(), types.NamespacedName{Name: "my-xr"}, xrGet(xr)); err != nil {
-		return map[string]any{}, []Mon{{Sig: "C10:harness", Why: "cannot read the seeded XR: " + err.Error()}}, "trivial/harness-error"
+		return nil, err
 	}
-	xrC = c10CopyMap(xr.Object)
-	cs.XR = c10Enc(xrC)
-
-	// prepare templates: decoded bases, parsed paths, oracle tables
 	nameIdx := map[string]int{}
-	for i := range cs.Tpls {
+	for _, i := range sel {
 		t := &cs.Tpls[i]
-		if allNamed && t.RefName == "" {
-			// the by-name associator leaves the reference of a template without a resource empty
-			t.RefKind, t.RefAPIVersion = "", ""
-		} else if t.RefKind == "" {
-			t.RefKind, t.RefAPIVersion = "Thing", "example.org/v1"
-		}
-		t.Base = c10DecodeBase(t.BaseSrc)
 		if t.RefName != "" {
 			nameIdx[t.RefName] = i
+			c10SeedExisting(st, t)
 		} else if t.NameGen != "" && t.NameGen != "fail" {
 			nameIdx[t.NameGen] = i
 		}
-		shadowCD := map[string]any{"metadata": map[string]any{"name": c10Or(t.RefName, t.NameGen)}}
-		if st := c10Dec(t.Status); st != nil && t.RefName != "" {
-			shadowCD["status"] = st
-			t.Status = c10Enc(st)
-		} else {
-			t.Status = nil
-		}
-		for j := range t.Patches {
-			p := &t.Patches[j]
-			c10PrepPatch(p)
-			c10FillPatchOracles(p, xrC, shadowCD, nil)
-		}
-	}
-
-	for _, t := range cs.Tpls {
-		if t.RefName == "" {
-			continue
-		}
-		anno := map[string]any{}
-		if t.Name != nil {
-			anno["crossplane.io/composition-resource-name"] = *t.Name
-		}
-		o := map[string]any{
-			"apiVersion": "example.org/v1", "kind": "Thing",
-			"metadata": map[string]any{
-				"name": t.RefName, "annotations": anno,
-				"labels": map[string]any{"crossplane.io/composite": "my-xr"},
-				"ownerReferences": []any{map[string]any{"apiVersion": "example.org/v1", "kind": "XThing", "name": "my-xr", "uid": c10XRUID, "controller": true, "blockOwnerDeletion": true}},
-			},
-			"spec": map[string]any{"stored": "x"},
-		}
-		if stt := c10Dec(t.Status); stt != nil {
-			o["status"] = stt
-		}
-		st.Seed(&unstructured.Unstructured{Object: o})
 	}
 	cl := &c10RecClient{Store: st, fault: map[string]string{}}
 	cl.target = func(kind, name string) string {
@@ -240,30 +292,33 @@ func c10RunCompose(s *c10Scn) (any, []Mon, string) {
 		}
 		return "?" + name
 	}
-	if cs.UpdateFails {
-		cl.fault["xr"] = "error"
-	}
-	for i, t := range cs.Tpls {
-		if t.Apply == "invalid" || t.Apply == "error" {
-			cl.fault[fmt.Sprint(i)] = t.Apply
+	if faults {
+		if cs.UpdateFails {
+			cl.fault["xr"] = "error"
+		}
+		for _, i := range sel {
+			if a := cs.Tpls[i].Apply; a == "invalid" || a == "error" {
+				cl.fault[fmt.Sprint(i)] = a
+			}
 		}
 	}
-	// the name oracle: template i's resource gets the scenario's name or a failure
+	// the name oracle: the k-th template's resource gets the scenario's name or a failure
 	call := 0
 	namer := names.NameGeneratorFn(func(_ context.Context, cd resource.Object) error {
-		i := call
+		k := call
 		call++
 		if cd.GetName() != "" || cd.GetGenerateName() == "" {
 			return nil
 		}
-		if i >= len(cs.Tpls) || cs.Tpls[i].NameGen == "fail" || cs.Tpls[i].NameGen == "" {
+		if k >= len(sel) || cs.Tpls[sel[k]].NameGen == "fail" || cs.Tpls[sel[k]].NameGen == "" {
 			return errors.New("cannot generate a name")
 		}
-		cd.SetName(cs.Tpls[i].NameGen)
+		cd.SetName(cs.Tpls[sel[k]].NameGen)
 		return nil
 	})
 	rev := &v1.CompositionRevision{}
-	for _, t := range cs.Tpls {
+	for _, i := range sel {
+		t := cs.Tpls[i]
 		ct := v1.ComposedTemplate{Name: t.Name, Base: runtime.RawExtension{Raw: []byte(t.BaseSrc)}}
 		for _, p := range t.Patches {
 			ct.Patches = append(ct.Patches, c10RealPatch(p))
@@ -271,15 +326,344 @@ func c10RunCompose(s *c10Scn) (any, []Mon, string) {
 		rev.Spec.Resources = append(rev.Spec.Resources, ct)
 	}
 	comp := composite.NewPTComposer(cl, cl, composite.WithComposedNameGenerator(namer))
-	var mons []Mon
-	cl.writes, cl.bodies = nil, nil
+	out := &c10ComposeOut{cl: cl, xr: xr, synced: []any{}}
 	var res composite.CompositionResult
 	var cerr error
-	pn := Guard(func() { res, cerr = comp.Compose(context.Background(), xr, composite.CompositionRequest{Revision: rev}) })
-	ec := c10ComposeErrClass(cerr)
+	out.pn = Guard(func() {
+		res, cerr = comp.Compose(context.Background(), xr, composite.CompositionRequest{Revision: rev})
+	})
+	out.ec = c10ComposeErrClass(cerr)
+	if out.pn != "" {
+		out.ec = "panic"
+	}
+	if out.ec == "" {
+		for _, c := range res.Composed {
+			out.synced = append(out.synced, c.Synced)
+		}
+	}
+	return out, nil
+}
+
+// c10TplRender is what rendering ONE template on its own with the real functions gives
+// (RenderFromJSON, then its from-XR patches one by one, metadata, the name oracle).
+type c10TplRender struct {
+	obj        *ucomposed.Unstructured // the rendered resource (name set when the generator hands one out)
+	parseErr   bool
+	unrendered bool // a from-XR patch, the metadata rendering or the name generation failed
+	// some from-XR patch that is not an optional patch with a missing source did not take
+	// effect (it failed, or it neither failed nor wrote its destination)
+	halfRendered bool
+	skipped      bool // a patch whose source is present was treated as a no-op
+	readsRefs    bool // a from-XR patch reads the whole spec or the resource references of the XR
+}
+
+func c10IsFromXR(p *c10Patch) bool {
+	return p.Type == "FromCompositeFieldPath" || p.Type == "CombineFromComposite"
+}
+
+// c10SourcePaths: the source path(s) of a patch, nil when the patch is malformed.
+func c10SourcePaths(p *c10Patch) []c10Path {
+	switch p.Type {
+	case "", "FromCompositeFieldPath", "ToCompositeFieldPath":
+		if p.From == nil {
+			return nil
+		}
+		return []c10Path{*p.From}
+	case "CombineFromComposite", "CombineToComposite":
+		if p.Combine == nil || p.To == nil || len(p.Combine.Vars) == 0 {
+			return nil
+		}
+		return p.Combine.Vars
+	}
+	return nil
+}
+
+// c10SourceState reads the source path(s): present = all resolve; missing = the first one that
+// cannot be read is not found.
+func c10SourceState(p *c10Patch, src map[string]any) (present, missing bool) {
+	paths := c10SourcePaths(p)
+	if paths == nil {
+		return false, false
+	}
+	for _, sp := range paths {
+		if _, err := c10Lookup(src, sp.Raw); err != nil {
+			return false, fieldpath.IsNotFound(err)
+		}
+	}
+	return true, false
+}
+
+func c10Optional(p *c10Patch) bool {
+	return p.Policy == nil || p.Policy.From == nil || *p.Policy.From == "Optional"
+}
+
+// c10JSONNorm is what a value looks like once it is part of an unstructured object that went
+// through JSON (integral floats are int64).
+func c10JSONNorm(v any) (any, bool) {
+	b, err := json.Marshal(map[string]any{"x": v})
+	if err != nil {
+		return nil, false
+	}
+	m := map[string]any{}
+	if err := kjson.Unmarshal(b, &m); err != nil {
+		return nil, false
+	}
+	return m["x"], true
+}
+
+// c10DestHolds: after a patch that reported success, does the destination object hold the
+// patched value at the destination path? (Judged on the object only: for a destination without
+// wildcard and merge options the value itself is compared, otherwise that the path(s) resolve.)
+// The second result is false when there is nothing to judge (a destination path without segments).
+func c10DestHolds(p *c10Patch, dstAfter map[string]any, out any) (holds, judged bool) {
+	to := p.To
+	if to == nil {
+		to = p.From
+	}
+	if to == nil {
+		return true, false
+	}
+	segs, err := fieldpath.Parse(to.Raw)
+	if err != nil || len(segs) == 0 {
+		return true, false
+	}
+	combine := p.Type == "CombineFromComposite" || p.Type == "CombineToComposite"
+	want, ok := c10JSONNorm(out)
+	if !ok {
+		return true, false
+	}
+	if strings.Contains(to.Raw, "[*]") && !combine {
+		var ex []string
+		var xerr error
+		if pn := Guard(func() { ex, xerr = fieldpath.Pave(c10CopyMap(dstAfter)).ExpandWildcards(to.Raw) }); pn != "" {
+			return true, false
+		}
+		if xerr != nil || len(ex) == 0 {
+			return false, true
+		}
+		for _, path := range ex {
+			if _, err := c10Lookup(dstAfter, path); err != nil {
+				return false, true
+			}
+		}
+		return true, true
+	}
+	got, err := c10Lookup(dstAfter, to.Raw)
+	if err != nil {
+		return false, true
+	}
+	if combine || c10RealMO(p.Policy) == nil {
+		return reflect.DeepEqual(c10Enc(got), c10Enc(want)), true
+	}
+	return true, true
+}
+
+// c10PresentSourceSkipped evaluates, on one real Apply of a patch that was not filtered out,
+// the clause "only an optional patch whose SOURCE path is missing is a no-op": the source
+// path(s) resolve and the transforms succeed (`reached`, `out` = the value to be written), yet
+// the patch reported success, left the destination object untouched and the destination does
+// not hold the value.
+func c10PresentSourceSkipped(p *c10Patch, reached bool, out any, ec string, dstBefore, dstAfter map[string]any) bool {
+	if !reached || ec != "" || !reflect.DeepEqual(dstBefore, dstAfter) {
+		return false
+	}
+	holds, judged := c10DestHolds(p, dstAfter, out)
+	return judged && !holds
+}
+
+// c10RenderAlone renders template i on its own, patch by patch, filling the oracle tables of
+// its patches on the way (a from-XR patch with merge options merges into whatever the base and
+// the earlier patches left at its destination).
+func c10RenderAlone(cs *c10ComposeScn, i int, xrC map[string]any, mons *[]Mon) *c10TplRender {
+	t := &cs.Tpls[i]
+	out := &c10TplRender{}
+	r := ucomposed.New(ucomposed.FromReference(corev1.ObjectReference{APIVersion: t.RefAPIVersion, Kind: t.RefKind, Name: t.RefName}))
+	out.obj = r
+	xrc := &ucomposite.Unstructured{Unstructured: unstructured.Unstructured{Object: c10CopyMap(xrC)}}
+	var e1 error
+	Guard(func() { e1 = composite.RenderFromJSON(r, []byte(t.BaseSrc)) })
+	shadowCD := map[string]any{"metadata": map[string]any{"name": c10Or(t.RefName, t.NameGen)}}
+	if st := c10Dec(t.Status); st != nil && t.RefName != "" {
+		shadowCD["status"] = st
+	}
+	stopped := false
+	for j := range t.Patches {
+		p := &t.Patches[j]
+		c10PrepPatch(p)
+		if !c10IsFromXR(p) {
+			// to-XR patches (and the ones the from-XR filter drops) read the stored resource
+			c10FillPatchOracles(p, xrC, shadowCD, nil)
+			continue
+		}
+		for _, sp := range c10SourcePaths(p) {
+			if segs, err := fieldpath.Parse(sp.Raw); err == nil && len(segs) >= 1 && segs[0].Field == "spec" &&
+				(len(segs) == 1 || segs[1].Field == "resourceRefs") {
+				out.readsRefs = true
+			}
+		}
+		if e1 != nil || stopped {
+			c10FillPatchOracles(p, xrC, c10CopyMap(r.Object), nil)
+			continue
+		}
+		before := c10CopyMap(r.Object)
+		reached := c10FillPatchOracles(p, xrC, before, nil)
+		var err error
+		pn := Guard(func() {
+			err = composite.Apply(c10RealPatch(*p), xrc, r, v1.PatchTypeFromCompositeFieldPath, v1.PatchTypeCombineFromComposite)
+		})
+		ec := c10ErrClass(err)
+		if pn != "" {
+			ec = "panic"
+		}
+		_, missing := c10SourceState(p, xrC)
+		if c10PresentSourceSkipped(p, reached, p.out, ec, before, r.Object) {
+			out.skipped = true
+			out.halfRendered = true
+			if mons != nil {
+				*mons = append(*mons, Mon{Sig: "C10:present-source-skipped", Why: fmt.Sprintf("template %d patch %d: the source resolves on the XR, the patch reported success, yet the destination was not written", i, j)})
+			}
+		}
+		if ec != "" {
+			if !(missing && c10Optional(p)) {
+				out.halfRendered = true
+			}
+			// RenderFromCompositePatches stops at the first error
+			stopped = true
+		} else if !reached && !(missing && c10Optional(p)) {
+			// the source cannot be read or transformed, yet no error
+			out.halfRendered = true
+		}
+	}
+	if e1 != nil {
+		out.parseErr = true
+		return out
+	}
+	// the verdict of the real render functions on a fresh object
+	r2 := ucomposed.New(ucomposed.FromReference(corev1.ObjectReference{APIVersion: t.RefAPIVersion, Kind: t.RefKind, Name: t.RefName}))
+	var e2, e3 error
+	Guard(func() {
+		if composite.RenderFromJSON(r2, []byte(t.BaseSrc)) != nil {
+			return
+		}
+		var ps []v1.Patch
+		for _, p := range t.Patches {
+			ps = append(ps, c10RealPatch(p))
+		}
+		e2 = composite.RenderFromCompositePatches(r2, xrc, ps)
+		e3 = composite.RenderComposedResourceMetadata(r2, xrc, composite.ResourceName(c10Deref(t.Name)))
+	})
+	nameFails := r2.GetName() == "" && r2.GetGenerateName() != "" && (t.NameGen == "fail" || t.NameGen == "")
+	out.unrendered = e2 != nil || e3 != nil || nameFails
+	if r2.GetName() == "" && r2.GetGenerateName() != "" && !nameFails {
+		r2.SetName(t.NameGen)
+	}
+	out.obj = r2
+	return out
+}
+
+// c10FillApplyOracles computes, for an existing resource, the mergo verdicts the apply options
+// of template t's own patches need: every option is `withMergeOptions(toFieldPath, mergeOptions)`
+// run against the stored resource and the rendered one; the operands are read before each
+// option, the verdict comes from crossplane-runtime's MergeValue on a scratch object, and the
+// rendered object is stepped forward with the real mergeReplace.
+func c10FillApplyOracles(t *c10Tpl, cur map[string]any, rendered *ucomposed.Unstructured) {
+	desired := &ucomposed.Unstructured{Unstructured: unstructured.Unstructured{Object: c10CopyMap(rendered.Object)}}
+	current := &ucomposed.Unstructured{Unstructured: unstructured.Unstructured{Object: c10CopyMap(cur)}}
+	for j := range t.Patches {
+		p := &t.Patches[j]
+		p.ApplyOrc = nil
+		if !c10IsFromXR(p) || p.Policy == nil || p.To == nil {
+			continue
+		}
+		mo := c10RealMO(p.Policy)
+		if mo != nil {
+			v, e1 := c10Lookup(desired.Object, p.To.Raw)
+			d, e2 := c10Lookup(current.Object, p.To.Raw)
+			if e1 == nil && e2 == nil && v != nil && d != nil {
+				e := map[string]any{"dst": c10Enc(d), "src": c10Enc(v)}
+				scratch := fieldpath.Pave(map[string]any{"x": c10Copy(d)})
+				var merr error
+				pn := Guard(func() { merr = scratch.MergeValue("x", c10Copy(v), mo) })
+				if pn == "" && merr == nil {
+					if r, gerr := scratch.GetValue("x"); gerr == nil {
+						e["out"] = c10Enc(r)
+					}
+				}
+				p.ApplyOrc = append(p.ApplyOrc, e)
+			}
+		}
+		var err error
+		if pn := Guard(func() { err = composite.VerifC10MergeReplace(p.To.Raw, current, desired, mo) }); pn != "" || err != nil {
+			return
+		}
+	}
+}
+
+func c10RunCompose(s *c10Scn) (any, []Mon, string) {
+	cs := s.Compose
+	all := make([]int, len(cs.Tpls))
+	allNamed := true
+	for i, t := range cs.Tpls {
+		all[i] = i
+		allNamed = allNamed && t.Name != nil
+	}
+	// read the XR back from the store: this is the object Compose is handed (server-set metadata included)
+	st0 := NewStore(runtime.NewScheme())
+	st0.Seed(&unstructured.Unstructured{Object: c10ComposeXR(cs, all)})
+	xr0 := ucomposite.New()
+	if err := st0.Get(context.Background(), types.NamespacedName{Name: "my-xr"}, xrGet(xr0)); err != nil {
+		return map[string]any{}, []Mon{{Sig: "C10:harness", Why: "cannot read the seeded XR: " + err.Error()}}, "trivial/harness-error"
+	}
+	xrC := c10CopyMap(xr0.Object)
+	cs.XR = c10Enc(xrC)
+
+	// prepare templates: decoded bases, parsed paths, oracle tables, the stored resources
+	var mons []Mon
+	rnd := make([]*c10TplRender, len(cs.Tpls))
+	for i := range cs.Tpls {
+		t := &cs.Tpls[i]
+		if allNamed && t.RefName == "" {
+			// the by-name associator leaves the reference of a template without a resource empty
+			t.RefKind, t.RefAPIVersion = "", ""
+		} else if t.RefKind == "" {
+			t.RefKind, t.RefAPIVersion = "Thing", "example.org/v1"
+		}
+		t.Base = c10DecodeBase(t.BaseSrc)
+		if stt := c10Dec(t.Status); stt != nil && t.RefName != "" {
+			t.Status = c10Enc(stt)
+		} else {
+			t.Status = nil
+		}
+		t.Cur = nil
+		if t.RefName != "" {
+			if csp, ok := c10Dec(t.CurSpec).(map[string]any); ok && csp != nil {
+				t.CurSpec = c10Enc(csp)
+			} else {
+				t.CurSpec = c10Enc(map[string]any{"stored": "x"})
+			}
+			c10SeedExisting(st0, t)
+			if u := st0.Peek(c10ThingGK, "", t.RefName); u != nil {
+				t.Cur = c10Enc(c10CopyMap(u.Object))
+			}
+		} else {
+			t.CurSpec = nil
+		}
+		// render the template on its own with the real functions (fills the patch oracles)
+		rnd[i] = c10RenderAlone(cs, i, xrC, &mons)
+		if t.RefName != "" && !rnd[i].parseErr && !rnd[i].unrendered {
+			cur, _ := c10Dec(t.Cur).(map[string]any)
+			c10FillApplyOracles(t, cur, rnd[i].obj)
+		}
+	}
+
+	// ---- the real reconcile
+	run, err := c10ComposeOnce(cs, all, true)
+	if err != nil {
+		return map[string]any{}, []Mon{{Sig: "C10:harness", Why: "cannot read the seeded XR: " + err.Error()}}, "trivial/harness-error"
+	}
+	cl, xr, ec, pn := run.cl, run.xr, run.ec, run.pn
 	if pn != "" {
 		mons = append(mons, Mon{Sig: "C10:panic", Why: "Compose panicked: " + c10Short(pn)})
-		ec = "panic"
 	}
 	if strings.HasPrefix(ec, "other:") {
 		mons = append(mons, Mon{Sig: "C10:unclassified-error", Why: ec})
@@ -294,6 +678,10 @@ func c10RunCompose(s *c10Scn) (any, []Mon, string) {
 		cl.bodies = []any{}
 	}
 	obs["bodies"] = cl.bodies
+	if cl.stored == nil {
+		cl.stored = []any{}
+	}
+	obs["stored"] = cl.stored
 	orefs := []any{}
 	if ec != "parseBase" {
 		for _, r := range xr.GetResourceReferences() {
@@ -301,39 +689,39 @@ func c10RunCompose(s *c10Scn) (any, []Mon, string) {
 		}
 	}
 	obs["refs"] = orefs
-	synced := []any{}
-	if ec == "" {
-		for _, c := range res.Composed {
-			synced = append(synced, c.Synced)
-		}
-	}
-	obs["synced"] = synced
+	obs["synced"] = run.synced
 
-	// ---- direct monitor: which templates do not render, established by rendering each one
-	// separately with the real functions
-	unrendered := make([]bool, len(cs.Tpls))
+	// ---- direct monitors
 	parseOK := true
+	nun, nex := 0, 0
+	moKinds := map[string]bool{}
 	for i, t := range cs.Tpls {
-		r := ucomposed.New(ucomposed.FromReference(corev1.ObjectReference{APIVersion: t.RefAPIVersion, Kind: t.RefKind, Name: t.RefName}))
-		xrc := &ucomposite.Unstructured{Unstructured: unstructured.Unstructured{Object: c10CopyMap(xrC)}}
-		var e1, e2, e3 error
-		Guard(func() {
-			e1 = composite.RenderFromJSON(r, []byte(t.BaseSrc))
-			if e1 != nil {
-				return
-			}
-			var ps []v1.Patch
-			for _, p := range t.Patches {
-				ps = append(ps, c10RealPatch(p))
-			}
-			e2 = composite.RenderFromCompositePatches(r, xrc, ps)
-			e3 = composite.RenderComposedResourceMetadata(r, xrc, composite.ResourceName(c10Deref(t.Name)))
-		})
-		if e1 != nil {
+		if rnd[i].parseErr {
 			parseOK = false
 		}
-		nameFails := r.GetName() == "" && r.GetGenerateName() != "" && (t.NameGen == "fail" || t.NameGen == "")
-		unrendered[i] = e2 != nil || e3 != nil || nameFails
+		if rnd[i].unrendered {
+			nun++
+		}
+		if t.RefName != "" {
+			nex++
+		}
+		for _, p := range t.Patches {
+			if c10IsFromXR(&p) && p.Policy != nil && p.To != nil {
+				mo := p.Policy.MO
+				switch {
+				case mo == nil:
+					moKinds["policy"] = true
+				case mo.Append != nil && *mo.Append && mo.Keep != nil && *mo.Keep:
+					moKinds["both"] = true
+				case mo.Append != nil && *mo.Append:
+					moKinds["append"] = true
+				case mo.Keep != nil && *mo.Keep:
+					moKinds["keep"] = true
+				default:
+					moKinds["plain"] = true
+				}
+			}
+		}
 	}
 	if parseOK && pn == "" {
 		wrote := map[string]bool{}
@@ -345,10 +733,13 @@ func c10RunCompose(s *c10Scn) (any, []Mon, string) {
 		}
 		for i, t := range cs.Tpls {
 			ti := fmt.Sprint(i)
-			if unrendered[i] && wrote[ti] {
+			if rnd[i].unrendered && wrote[ti] {
 				mons = append(mons, Mon{Sig: "C10:unrendered-applied", Why: "template " + ti + " failed to render but a write was addressed to its resource"})
 			}
-			if !unrendered[i] && ec == "" && !wrote[ti] {
+			if rnd[i].halfRendered && wrote[ti] {
+				mons = append(mons, Mon{Sig: "C10:half-rendered-applied", Why: "a from-XR patch of template " + ti + " (not an optional patch with a missing source) did not take effect, yet its resource was created or updated"})
+			}
+			if !rnd[i].unrendered && ec == "" && !wrote[ti] {
 				mons = append(mons, Mon{Sig: "C10:rendered-not-applied", Why: "template " + ti + " rendered and the reconcile succeeded but its resource was not written"})
 			}
 			if t.RefName != "" && ec != "parseBase" {
@@ -358,14 +749,86 @@ func c10RunCompose(s *c10Scn) (any, []Mon, string) {
 				}
 			}
 		}
-	}
-	nun := 0
-	for _, u := range unrendered {
-		if u {
-			nun++
+		// purity of the apply step: what is sent for template j must not depend on the other
+		// templates. Re-run the real Compose on template j alone against the same XR and the same
+		// existing resource j and compare what is sent for j. (Not judged for a template that
+		// reads the XR's resource references, which name the other templates' resources.)
+		if len(cs.Tpls) > 1 {
+			for j := range cs.Tpls {
+				tj := fmt.Sprint(j)
+				full, sentFull := cl.bodyOf[tj]
+				if !sentFull || rnd[j].readsRefs {
+					continue
+				}
+				alone, err := c10ComposeOnce(cs, []int{j}, false)
+				if err != nil || alone.pn != "" {
+					continue
+				}
+				single, sentAlone := alone.cl.bodyOf[tj]
+				if !sentAlone {
+					mons = append(mons, Mon{Sig: "C10:apply-depends-on-other-template", Why: "template " + tj + ": composed together with the other templates its resource is written, composed alone (same XR, same existing resource) it is not"})
+					continue
+				}
+				if !reflect.DeepEqual(full, single) {
+					mons = append(mons, Mon{Sig: "C10:apply-depends-on-other-template", Why: "template " + tj + ": what is sent for its resource differs between composing it together with the other templates and composing it alone (same XR, same existing resource): " + c10Short(mustJSON(full)) + " vs " + c10Short(mustJSON(single))})
+				}
+			}
 		}
 	}
-	return obs, mons, fmt.Sprintf("compose/n=%d/unrendered=%d/%s", len(cs.Tpls), nun, c10Or(ec, "ok"))
+	// apply options of the composition: policy = a policy without merge options, plain = merge
+	// options with no flag set, append / keep / both
+	kinds := make([]string, 0, len(moKinds))
+	for k := range moKinds {
+		kinds = append(kinds, k)
+	}
+	sort.Strings(kinds)
+	opts := "none"
+	switch {
+	case len(kinds) == 1:
+		opts = kinds[0]
+	case len(kinds) > 1:
+		opts = "mixed"
+	}
+	if nex == 0 {
+		// no existing resource: the apply options never run
+		opts += "-allnew"
+	}
+	return obs, mons, fmt.Sprintf("compose/opts=%s/unrendered=%d/%s", opts, c10Cap(nun, 1), c10Or(ec, "ok"))
+}
+
+// c10MaskNumbers: the simulated API server decodes a merge patch through float64, so integers
+// beyond 2^53 lose precision in the STORED object (the body that is sent is compared exactly).
+// Floats and integers of that magnitude are not compared in the stored object.
+func c10MaskNumbers(v any) any {
+	switch x := v.(type) {
+	case int64:
+		if x >= 1<<53 || x <= -(1<<53) {
+			return "$num"
+		}
+		return x
+	case float64:
+		return "$num"
+	case []any:
+		out := make([]any, len(x))
+		for i := range x {
+			out[i] = c10MaskNumbers(x[i])
+		}
+		return out
+	case map[string]any:
+		out := make(map[string]any, len(x))
+		for k, e := range x {
+			out[k] = c10MaskNumbers(e)
+		}
+		return out
+	}
+	return v
+}
+
+func c10Cap(n, m int) int {
+	if n > m {
+		return m
+	}
+	return n
 }
 
 func xrGet(xr *ucomposite.Unstructured) client.Object {
@@ -382,7 +845,151 @@ func c10Deref(s *string) string {
 
 // ---------------------------------------------------------------- generator
 
+// c10GenMO draws merge options: appendSlice, keepMapValues, both, explicit false, empty.
+func c10GenMO(r *Rng) *c10MO {
+	switch r.Intn(6) {
+	case 0:
+		return &c10MO{Append: c10P(true)}
+	case 1:
+		return &c10MO{Keep: c10P(true)}
+	case 2:
+		return &c10MO{Append: c10P(true), Keep: c10P(true)}
+	case 3:
+		return &c10MO{Append: c10P(r.Bool()), Keep: c10P(r.Bool())}
+	case 4:
+		return &c10MO{}
+	}
+	return &c10MO{Append: c10P(true), Keep: c10P(false)}
+}
+
+// c10GenComposeShared draws a composition whose templates patch the SAME destination paths
+// from the same XR fields with different policies (none / policy without merge options /
+// appendSlice / keepMapValues / both), most of them for resources that already exist and hold
+// stale values at those paths (entries since removed from the XR's lists, changed map values),
+// and wildcard destinations over a list that is populated, empty, absent or an explicit null.
+func c10GenComposeShared(r *Rng) *c10Scn {
+	alpha := []string{"a", "b", "c", "stale", "d"}
+	pickList := func(max int) []any {
+		l := []any{}
+		for i, n := 0, r.Intn(max+1); i < n; i++ {
+			l = append(l, Pick(r, alpha))
+		}
+		return l
+	}
+	pickMap := func() map[string]any {
+		m := map[string]any{}
+		for i, n := 0, r.Intn(4); i < n; i++ {
+			m[Pick(r, []string{"env", "team", "tier", "k"})] = Pick(r, []any{"prod", "dev", "x", int64(1)})
+		}
+		return m
+	}
+	sp := map[string]any{"region": Pick(r, []string{"eu-west-1", "us-east-1a"})}
+	if !r.Chance(1, 8) {
+		sp["groups"] = pickList(3)
+	}
+	if !r.Chance(1, 8) {
+		sp["tags"] = pickMap()
+	}
+	if r.Chance(1, 2) {
+		sp["nested"] = map[string]any{"list": pickList(2), "m": pickMap()}
+	}
+	xr := map[string]any{"spec": sp, "metadata": map[string]any{"labels": map[string]any{"crossplane.io/composite": "my-xr"}}}
+	cs := &c10ComposeScn{XR: c10Enc(xr)}
+	type pair struct{ from, to string }
+	pairs := []pair{
+		{"spec.groups", "spec.forProvider.groups"}, {"spec.groups", "spec.forProvider.groups"},
+		{"spec.tags", "spec.forProvider.tags"}, {"spec.tags", "spec.forProvider.tags"},
+		{"spec.nested", "spec.forProvider.nested"}, {"spec.region", "spec.forProvider.region"},
+		{"spec.region", "spec.rules[*].owner"}, {"spec.groups", "spec.rules[*].groups"},
+		{"spec.groups[0]", "spec.forProvider.groups[0]"}, {"spec.missing", "spec.forProvider.groups"},
+	}
+	n := r.Range(2, 4)
+	named := r.Chance(2, 3)
+	for i := 0; i < n; i++ {
+		t := c10Tpl{RefAPIVersion: "example.org/v1", RefKind: "Thing", Apply: "ok", NameGen: fmt.Sprintf("gen-%d", i)}
+		if named {
+			t.Name = c10P(fmt.Sprintf("res-%d", i))
+		}
+		fp := map[string]any{}
+		if r.Chance(1, 3) {
+			fp["groups"] = pickList(2)
+		}
+		if r.Chance(1, 3) {
+			fp["tags"] = pickMap()
+		}
+		bspec := map[string]any{"forProvider": fp}
+		switch r.Intn(6) {
+		case 0:
+			bspec["rules"] = nil
+		case 1:
+			bspec["rules"] = []any{}
+		case 2, 3:
+			bspec["rules"] = []any{map[string]any{"port": int64(80)}, map[string]any{"port": int64(443), "owner": "x"}}
+		}
+		t.BaseSrc = mustJSON(map[string]any{"apiVersion": "example.org/v1", "kind": "Thing", "spec": bspec})
+		if r.Chance(4, 5) {
+			t.RefName = fmt.Sprintf("cd-%d", i)
+			cfp := map[string]any{}
+			if !r.Chance(1, 5) {
+				cfp["groups"] = Pick(r, []any{pickList(3), pickList(3), []any{"a", "stale"}, "scalar", nil})
+			}
+			if !r.Chance(1, 5) {
+				cfp["tags"] = Pick(r, []any{pickMap(), pickMap(), map[string]any{"env": "old", "gone": "y"}, []any{"x"}})
+			}
+			if r.Chance(1, 3) {
+				cfp["nested"] = map[string]any{"list": pickList(3), "m": pickMap()}
+			}
+			if r.Chance(1, 3) {
+				cfp["region"] = "old-region"
+			}
+			cur := map[string]any{"forProvider": cfp}
+			if r.Chance(1, 2) {
+				cur["rules"] = Pick(r, []any{[]any{map[string]any{"port": int64(80), "owner": "old"}}, []any{}, nil})
+			}
+			t.CurSpec = c10Enc(cur)
+			if r.Chance(1, 3) {
+				t.Status = c10Enc(map[string]any{"id": "abc-123"})
+			}
+		}
+		for j, m := 0, r.Range(1, 3); j < m; j++ {
+			pr := Pick(r, pairs)
+			p := c10Patch{Type: "FromCompositeFieldPath", From: &c10Path{Raw: pr.from}, To: &c10Path{Raw: pr.to}}
+			switch r.Intn(6) {
+			case 0, 1:
+				// no policy: the destination is replaced
+			case 2:
+				p.Policy = &c10Policy{From: c10P(Pick(r, []string{"Optional", "Required"}))}
+			default:
+				p.Policy = &c10Policy{MO: c10GenMO(r)}
+				if r.Chance(1, 4) {
+					p.Policy.From = c10P(Pick(r, []string{"Optional", "Required"}))
+				}
+			}
+			if r.Chance(1, 10) {
+				p.Type = "CombineFromComposite"
+				p.From = nil
+				p.Combine = &c10Combine{Strategy: "string", Fmt: c10P("%v-%v"), Vars: []c10Path{{Raw: "spec.region"}, {Raw: pr.from}}}
+				if strings.Contains(pr.to, "[*]") {
+					p.To = &c10Path{Raw: "spec.forProvider.combined"}
+				}
+			}
+			t.Patches = append(t.Patches, p)
+		}
+		if r.Chance(1, 4) {
+			t.Patches = append(t.Patches, c10Patch{Type: "ToCompositeFieldPath", From: &c10Path{Raw: "status.id"}, To: &c10Path{Raw: "status.id"}})
+		}
+		if r.Chance(1, 12) {
+			t.Apply = Pick(r, []string{"invalid", "error"})
+		}
+		cs.Tpls = append(cs.Tpls, t)
+	}
+	return &c10Scn{Kind: "compose", Compose: cs}
+}
+
 func c10GenComposeScn(r *Rng) *c10Scn {
+	if r.Chance(2, 5) {
+		return c10GenComposeShared(r)
+	}
 	xr := map[string]any{"spec": c10GenObj(r, 2)}
 	// make some well-known fields present most of the time so that patches succeed often
 	sp := xr["spec"].(map[string]any)
@@ -418,6 +1025,23 @@ func c10GenComposeScn(r *Rng) *c10Scn {
 			t.RefName = fmt.Sprintf("cd-%d", i)
 			if r.Chance(2, 3) {
 				t.Status = c10Enc(map[string]any{"id": Pick(r, []any{"abc-123", int64(7), true}), "atProvider": c10GenObj(r, 1)})
+			}
+			if r.Chance(3, 4) {
+				// what the API server holds: an earlier rendering that has gone stale
+				cur := c10GenObj(r, 2)
+				if r.Chance(1, 2) {
+					cur["forProvider"] = map[string]any{"region": Pick(r, []any{"old-region", int64(3), []any{"a"}})}
+				}
+				if r.Chance(1, 3) {
+					cur["list"] = Pick(r, []any{[]any{"x", "y", "z"}, []any{}, "scalar"})
+				}
+				if r.Chance(1, 3) {
+					cur["m"] = Pick(r, []any{map[string]any{"k": "old", "j": int64(1)}, []any{int64(1)}, nil})
+				}
+				if r.Chance(1, 3) {
+					cur["tags"] = []any{map[string]any{"v": "old", "w": true}, map[string]any{"v": "second"}}
+				}
+				t.CurSpec = c10Enc(cur)
 			}
 		}
 		t.NameGen = fmt.Sprintf("gen-%d", i)
@@ -471,6 +1095,13 @@ func c10GenComposeScn(r *Rng) *c10Scn {
 				p.Policy = &c10Policy{From: c10P("Required")}
 			case 1:
 				p.Policy = &c10Policy{From: c10P("Optional")}
+			}
+			if (p.Type == "FromCompositeFieldPath" || p.Type == "CombineFromComposite") && r.Chance(1, 3) {
+				// merge options (from-XR patches only: the final apply of the XR is outside the model)
+				if p.Policy == nil {
+					p.Policy = &c10Policy{}
+				}
+				p.Policy.MO = c10GenMO(r)
 			}
 			t.Patches = append(t.Patches, *p)
 		}
